@@ -122,8 +122,12 @@ where
     }
     .uri(&r.uri);
     if let Some(c) = &r.client_id {
-        let hv = actix_web::http::header::HeaderValue::from_bytes(c).map_err(|e| format!("header value not representable: {e}"))?;
-        tr = tr.insert_header((actix_web::http::header::HeaderName::from_static("x-client-id"), hv));
+        // several header LINES are written as values separated by a line feed (which no header value can contain)
+        for (i, part) in c.split(|b| *b == b'\n').enumerate() {
+            let hv = actix_web::http::header::HeaderValue::from_bytes(part).map_err(|e| format!("header value not representable: {e}"))?;
+            let name = actix_web::http::header::HeaderName::from_static("x-client-id");
+            tr = if i == 0 { tr.insert_header((name, hv)) } else { tr.append_header((name, hv)) };
+        }
     }
     if let Some(ct) = &r.content_type {
         tr = tr.insert_header(("Content-Type", ct.clone()));
@@ -913,6 +917,42 @@ pub fn leg_http(thorough: bool, seed: u64) -> Value {
             });
         }
     }
+    // X-Client-Id sent TWICE, an unlisted id first and a listed one second: whichever copy the server goes by, an id that is not
+    // on the list must not be served (C16) and nothing may be stored for it
+    for backend in ["mem", "sqlite"] {
+        let dir = scratch("tcss-http7-");
+        let listed = Uuid::new_v4();
+        let unlisted = Uuid::new_v4();
+        let allow: HashSet<Uuid> = [listed, Uuid::new_v4()].into_iter().collect();
+        let mem = Arc::new(InMemoryStorage::new());
+        let web = if backend == "mem" { WebServer::new(ServerConfig::default(), Some(allow), Shared(mem.clone())) } else { WebServer::new(ServerConfig::default(), Some(allow), SqliteStorage::new(dir.path()).unwrap()) };
+        sys.block_on(async {
+            let app = test::init_service(App::new().configure(|sc| web.config(sc))).await;
+            let both = format!("{unlisted}\n{listed}").into_bytes();
+            for (name, r) in [
+                ("add-version", ReqSpec { method: "POST", uri: uri_av(NIL), client_id: Some(both.clone()), content_type: Some(HS_CT.into()), chunks: vec![b"x".to_vec()] }),
+                ("get-child-version", ReqSpec { method: "GET", uri: uri_gcv(NIL), client_id: Some(both.clone()), content_type: None, chunks: vec![] }),
+                ("add-snapshot", ReqSpec { method: "POST", uri: uri_snap(Uuid::new_v4()), client_id: Some(both.clone()), content_type: Some(SNAP_CT.into()), chunks: vec![b"s".to_vec()] }),
+                ("get-snapshot", ReqSpec { method: "GET", uri: "/v1/client/snapshot".into(), client_id: Some(both.clone()), content_type: None, chunks: vec![] }),
+            ] {
+                let tr = vec![format!("{backend}: allow-list = {{{listed}, one more}}; {name} with two X-Client-Id header lines: first {unlisted} (not listed), then {listed} (listed)")];
+                if let Ok(d) = call(&app, &r).await {
+                    ctx.common(&d, &r, &tr, "two-ids");
+                    // served as the listed client would be fine only if the listed id is the one that is used
+                    let st = if backend == "mem" { absfn::via_api(&Shared(mem.clone()), unlisted, &[NIL]).ok() } else { absfn::via_raw_sql(dir.path()).ok().map(|r| cs(&r.db, unlisted)) };
+                    let created = st.map(|c| c.exists).unwrap_or(false);
+                    let served_unlisted = created || (d.status != 403 && d.status != 400 && {
+                        // the response is an outcome for SOME client: it must be the listed one's (which owns nothing yet or what this loop gave it)
+                        let st_l = if backend == "mem" { absfn::via_api(&Shared(mem.clone()), listed, &[NIL]).ok() } else { absfn::via_raw_sql(dir.path()).ok().map(|r| cs(&r.db, listed)) };
+                        name == "add-version" && d.status == 200 && !st_l.map(|c| c.exists).unwrap_or(false)
+                    });
+                    if served_unlisted {
+                        ctx.v(&["C16"], format!("{name}: a request whose first X-Client-Id is not on the allow-list was served (status {}, a record for the unlisted id exists: {created})", d.status), &r, &tr);
+                    }
+                }
+            }
+        });
+    }
     // uploads that OVERLAP on one worker (bodies trickle in round-robin): every stored body is its own request's body,
     // no other client's bytes (C06, C09), for add-version and add-snapshot, 2..4 requests in flight
     for backend in ["mem", "sqlite"] {
@@ -1043,5 +1083,5 @@ pub fn leg_http(thorough: bool, seed: u64) -> Value {
     let nv = ctx.violations.len();
     json!({"leg": "http", "requests": ctx.requests, "distinct_outcomes": ctx.outcomes, "violations": ctx.violations, "violations_total": nv, "samples": ctx.samples,
         "inconclusive_items": ctx.inconclusive.iter().take(5).collect::<Vec<_>>(),
-        "bound": format!("in process (no socket); protocol histories of {} random requests x 2 configs x 2 backends; client-id forms x 4 endpoints x 4 allow-lists (absent, empty, one, many); 15 malformed requests; body sizes 1, 4095, 4096, 4097, 65536, 1 MiB+1, 3 MiB-1, limit, limit+1{} in up-to-5 chunkings; never-seen clients; 3 generations of WebServer on one SQLite directory (restart) with and without an allow-list; 2..4 uploads in flight at once on one worker (bodies chunk by chunk round-robin) x 3 shapes x 2 backends; each of the first 6 storage calls of each endpoint's request failing before / after taking effect", if thorough { 120 } else { 45 }, if thorough { ", 65535, 1 MiB, limit-1, limit+1 MiB" } else { "" })})
+        "bound": format!("in process (no socket); protocol histories of {} random requests x 2 configs x 2 backends; client-id forms x 4 endpoints x 4 allow-lists (absent, empty, one, many); 15 malformed requests; body sizes 1, 4095, 4096, 4097, 65536, 1 MiB+1, 3 MiB-1, limit, limit+1{} in up-to-5 chunkings; never-seen clients; a repeated X-Client-Id header (unlisted id first) on 4 endpoints; 3 generations of WebServer on one SQLite directory (restart) with and without an allow-list; 2..4 uploads in flight at once on one worker (bodies chunk by chunk round-robin) x 3 shapes x 2 backends; each of the first 6 storage calls of each endpoint's request failing before / after taking effect", if thorough { 120 } else { 45 }, if thorough { ", 65535, 1 MiB, limit-1, limit+1 MiB" } else { "" })})
 }
